@@ -8,12 +8,13 @@ TITLE = "nonlocal game: classical value exact, values ordered, object unchanged"
 LEVEL = "other"
 BUDGET = {"quick": 100, "thorough": 1200}
 ENGINES = ["E1-pyvc", "E2-frame", "E3-E4-rtc"]
-TECHNIQUE = "VCs from the real AST (z3): update_odometer for lists of any length (loop invariant), strategy-space coverage and call-site preconditions of classical_value, digit decode of process_iteration; frame clauses of the value methods by taint analysis; bounded run-time contracts (brute force, product games, BCS games, SDP value ordering)"
+TECHNIQUE = "VCs from the real AST (z3): update_odometer for lists of any length (loop invariant), strategy-space coverage and call-site preconditions of classical_value, digit decode of process_iteration; the product table built by the constructor for reps > 1 (loop invariants over the question odometers); frame clauses of the value methods by taint analysis; bounded run-time contracts (brute force, product games, BCS games, SDP value ordering)"
 LEVEL_TEXT = (
     "Mixed. Proved (unbounded in answer counts / list length): update_odometer is the mixed-radix successor and respects its frame; classical_value visits "
     "every answer function of the enumerated player (num_iterations >= B**Y) and calls process_iteration with matching sizes, for every question-count pair "
     "(X,Y) in 1..3 (enumerated exponents) and all answer counts; process_iteration reads exactly the base-B digits of i (Y<=4 unrolled, all B, i); the four value "
-    "methods write through no reference reachable from self. Bounded (run-time contracts, never counted as proved): classical value == brute force over all "
+    "methods write through no reference reachable from self; NonlocalGame(prob, V, reps) for reps = 2, 3 and all answer / question counts stores tensor(prob, reps) and a new table "
+    "whose block at questions (i, j) is tensor_k V[:, :, x_k, y_k] with (x_k), (y_k) the base-X / base-Y digits of i / j (the product game). Bounded (run-time contracts, never counted as proved): classical value == brute force over all "
     "strategy pairs on shapes <= 3, product-game and BCS constructions, the ordering classical, q_lb <= NPA_k <= NS <= 1 on random asymmetric games (SDP, tolerance), "
     "snapshot equality of the game object under every invocation order."
 )
@@ -551,3 +552,17 @@ def cases(tier, seed):
     for o in orders:
         add("frame.snapshot", dict(order=list(o), seed=seed, shape=[2, 2, 2, 2]), "frame/order")
     return out
+
+
+# ---------------------------------------------------------------------------------------------
+# the constructor's parallel-repetition branch (E1-integer, contracts/reps_ctor.py)
+# ---------------------------------------------------------------------------------------------
+_prove_values = prove
+
+
+def prove(tier, seed):  # noqa: F811
+    from props.reps_prove import prove_reps
+    from vt.pyvc.termproofs import merge
+
+    replay = [dict(c, function="NonlocalGame.__init__") for c in cases("quick", seed) if c["clause"] == "cv.reps"]
+    return merge(_prove_values(tier, seed), prove_reps("toqito/nonlocal_games/nonlocal_game.py", "NonlocalGame.__init__", 2, replay, "c07r", tier))
